@@ -510,6 +510,30 @@ def gen_float(rng, tier):
             yield Case("f.to_f64", [dec(2), md, hx(s), dec(e)])
             yield Case("f.to_f64.code", [dec(2), md, hx(s), dec(e)])
             yield Case("f.tryto_f64", [hx(s), dec(e)])
+    # exponent boundaries of into_f32_internal / into_f64_internal (`exponent >= 128|1024`, `exponent < -149-24|-1074-53`)
+    # and of encode's regimes, with significands of exactly p-1, p, p+1, p+2 bits (odd: already normalised)
+    for ty in ("f32", "f64"):
+        f = FMT[ty]; p = f["MB"] + 1; qmin = _qmin(f); emax1 = 2 ** (f["EB"] - 1)
+        for L in (1, 2, p - 1, p, p + 1, p + 2, p + 3):
+            sigs = {(1 << L) - 1, (1 << (L - 1)) | 1, rng.getrandbits(L) | (1 << (L - 1)) | 1}
+            if L > p:
+                k = L - p
+                sigs |= {((1 << (p - 1)) << k) | (1 << (k - 1)) | 1, (((1 << p) - 1) << k) | (1 << (k - 1)) | 1,
+                         ((1 << (p - 1)) << k) | ((1 << (k - 1)) - 1) | 1}
+            for sg in sorted(sigs):
+                Lv = min(L, p)
+                for ve in [qmin - p - 2, qmin - p - 1, qmin - p, qmin - p + 1, qmin - Lv - 1, qmin - Lv, qmin - Lv + 1, qmin - 1, qmin,
+                           emax1 - Lv - 1, emax1 - Lv, emax1 - Lv + 1, emax1 - 2, emax1 - 1, emax1, emax1 + 1]:
+                    e = ve - max(L - p, 0)
+                    s2 = signed(rng, sg)
+                    if ty == "f32":
+                        md = rng.choice(modes)
+                        yield Case("f.to_f32", [dec(2), md, hx(s2), dec(e)]); yield Case("f.to_f32.code", [dec(2), md, hx(s2), dec(e)])
+                        yield Case("fr.to_f32", [dec(2), hx(s2), dec(e)]); yield Case("fr.to_f32.code", [dec(2), hx(s2), dec(e)])
+                        yield Case("f.tryto_f32", [hx(s2), dec(e)])
+                    else:
+                        yield Case("f.to_f64", [dec(2), "HalfAway", hx(s2), dec(e)]); yield Case("f.to_f64.code", [dec(2), "HalfAway", hx(s2), dec(e)])
+                        yield Case("f.tryto_f64", [hx(s2), dec(e)])
     # decimals d * 10^e, |e| <= 400 (and bases 16, 3)
     for _ in range(300 if quick else 40000):
         B = rng.choice([10, 10, 10, 16, 3])
@@ -610,22 +634,25 @@ THEOREMS = ["Dashu.Props.C06." + n for n in [
     "spec_rounding_is_nearest", "spec_rounding_ties_to_even", "decode_reads_fields_f32", "decode_reads_fields_f64",
     "spec_rational_extends_dyadic", "encode_correct_f32", "encode_correct_f64", "encode_correct_generic",
     "encode_decode_roundtrip_f32", "encode_decode_roundtrip_f64", "encode_asis_f32_counterexample_flag",
-    "encode_asis_f32_counterexample_value", "encode_asis_f64_counterexample_flag", "encode_asis_f64_counterexample_value",
-    "encode_asis_f32_counterexample_subnormal", "encode_asis_f64_counterexample_subnormal",
-    "encode_asis_f32_counterexample_underflow", "encode_asis_f32_counterexample_shift_panic",
-    "encode_asis_f64_counterexample_shift_panic", "encode_asis_counterexample_exponent_overflow", "sticky_bit_lemma",
-    "ubig_to_f64_correct", "ubig_to_f32_correct", "ibig_to_float_sign", "to_f64_small_asis_counterexample",
-    "ubig_try_to_f32_sound", "ubig_try_to_f64_sound", "ubig_try_from_float_exact_or_refused",
-    "ibig_try_from_float_exact_or_refused", "int_from_float_asis_counterexample", "try_to_unsigned_in_range_iff",
-    "try_from_sign_magnitude_in_range_iff", "to_sign_magnitude_exact", "from_unsigned_roundtrip", "rbig_to_f32_correct",
-    "rbig_to_f64_correct", "rbig_to_f32_asis_counterexample", "rbig_to_f64_asis_counterexample", "rbig_try_to_ibig_iff",
+    "encode_asis_f32_counterexample_value", "encode_asis_f64_counterexample_flag",
+    "encode_asis_f64_counterexample_value", "encode_asis_f32_counterexample_subnormal",
+    "encode_asis_f64_counterexample_subnormal", "encode_asis_f32_counterexample_underflow",
+    "encode_asis_f32_counterexample_shift_panic", "encode_asis_f64_counterexample_shift_panic",
+    "encode_asis_counterexample_exponent_overflow", "sticky_bit_lemma", "ubig_to_f64_correct", "ubig_to_f32_correct",
+    "ibig_to_float_sign", "to_f64_small_asis_counterexample", "ubig_try_to_f32_sound", "ubig_try_to_f64_sound",
+    "ubig_try_from_float_exact_or_refused", "ibig_try_from_float_exact_or_refused",
+    "int_from_float_asis_counterexample", "try_to_unsigned_in_range_iff", "try_from_sign_magnitude_in_range_iff",
+    "to_sign_magnitude_exact", "from_unsigned_roundtrip", "rbig_to_f32_correct", "rbig_to_f64_correct",
+    "rbig_to_f32_asis_counterexample", "rbig_to_f64_asis_counterexample", "rbig_try_to_ibig_iff",
     "rbig_try_to_ubig_iff", "rbig_try_to_prim_iff", "rbig_to_int_truthful", "rbig_try_from_float_exact",
     "rbig_try_from_float_refuses", "fbig_try_from_float_exact", "fbig_try_to_ibig_iff", "fbig_try_to_ubig_sound",
     "fbig_try_to_prim_iff", "fbig_to_rbig_exact", "rbig_try_to_f32_sound", "rbig_try_to_f64_sound",
     "fbig_to_int_follows_mode", "repr_to_int_truncates", "double_rounding_lemma", "fbig_first_rounding",
     "fbig_to_f64_normal_form", "fbig_to_f32_normal_form", "fbig_to_f64_value_iff", "fbig_to_f32_value_iff",
     "fbig_to_f64_flag_iff", "fbig_to_f32_flag_iff", "fbig_to_f64_bad_regions_inhabited", "rbig_to_f64_fast_normal_form",
-    "rbig_to_f32_fast_normal_form", "rbig_to_float_fast_quotient_bound"]]
+    "rbig_to_f32_fast_normal_form", "rbig_to_float_fast_quotient_bound", "rbig_try_to_f32_iff", "rbig_try_to_f64_iff",
+    "fbig_try_to_f64_sound", "fbig_try_to_f32_sound", "signed_primitive_roundtrip", "fbig_to_f32_value_iff_every_mode",
+    "fbig_to_f32_mode_region_inhabited"]]
 EXTRA_AXIOMS = {}      # bv_decide was NOT needed: encode_correct is an arithmetic proof (propext, Classical.choice, Quot.sound only)
 
 REFINED = [
@@ -642,11 +669,13 @@ REFINED = [
     "every numerator/denominator (sticky lemma for non-dyadic quotients)",
     "float/src/convert.rs FBig::<R,2>::to_f32 (every mode) / FBig::to_f64 / Repr::<2>::to_f32/to_f64: first rounding through the regenerated "
     "round_low_part tables == magnitude rounding; normal form (bits = IEEE rounding of the first-rounded value); for the round-half-even "
-    "path the value is correct IFF not ToFloatBad and the flag truthful IFF not ToFloatFlagBad (closed forms = the finding predicates)",
+    "path the value is correct IFF not ToFloatBad and the flag truthful IFF not ToFloatFlagBad (closed forms = the finding predicates); for "
+    "EVERY mode R of FBig::<R,2>::to_f32 the value equals one rounding in mode R IFF not ModeBad (subnormal result re-rounded half-even)",
     "float/src/convert.rs TryFrom<FBig> for IBig/UBig/uN/iN (any base, sound log2 estimate as oracle), TryFrom<f32|f64> for FBig<_,2>; "
     "rational/src/third_party/dashu_float.rs TryFrom<FBig> for RBig",
     "rational/src/convert.rs TryFrom<RBig> for IBig/UBig/uN/iN (iff integer in range), TryFrom<f32|f64> for RBig (exact), "
-    "TryFrom<RBig> for f32/f64 (a success is exact), RBig::to_int (truncation, Exact iff integer, fraction is the rest)",
+    "TryFrom<RBig> for f32/f64 (succeeds IFF exactly representable, returns that float), TryFrom<FBig<_,2>|Repr<2>> for f32/f64 (a success is "
+    "exact), RBig::to_int (truncation, Exact iff integer, fraction is the rest)",
     "FBig::to_int / Repr::to_int: re-exported from builder-float's proofs (mode followed, flagged inexact)",
     "integer/src/convert.rs try_to_unsigned / unsigned_from_words (all word sizes that are multiples of 8), "
     "integer/src/primitive.rs to_sign_magnitude / try_from_sign_magnitude (all widths), from_unsigned round trip",
@@ -655,10 +684,10 @@ FRONTIER = [
     "rational/src/convert.rs to_f32_fast/to_f64_fast: mirrored, normal form and the quotient-level error bound (< 4.5 units of the quotient, "
     "i.e. < 2.5 ulps before encode's correct rounding) are proved; the resulting 3-unit bound on the bit patterns (all regimes incl. "
     "subnormal/overflow) is checked per case",
-    "TryFrom<RBig> for f32/f64: completeness (every exactly representable rational is accepted) and the KIND of a refusal are checked per case "
-    "against the spec, not proved (soundness is proved)",
-    "FBig::<R,2>::to_f32 with a directed mode / HalfAway: normal form proved; the failing region (subnormal results: encode rounds to nearest "
-    "after the directed first rounding) is decided per case against the single-rounding spec, no closed form",
+    "TryFrom<RBig> for f32/f64: the KIND of a refusal (OutOfBounds vs LossOfPrecision) follows the order of the tests in the code and is "
+    "checked per case only (success IFF exactly representable is proved)",
+    "FBig::<R,2>::to_f32 with a directed mode / HalfAway: the VALUE is proved equal to the single-rounding spec exactly outside ModeBad "
+    "(fbig_to_f32_value_iff_every_mode); the FLAG in those modes is decided per case only (closed form proved for round-half-even only)",
     "FBig/Repr::to_f32/to_f64 for bases that are not 2 (convert_base: division or ln/exp path), RBig::to_float, From<RBig> for FBig: spec only "
     "(single rounding of the exact rational value under the documented mode, flags derived from the true error)",
 ]
@@ -674,7 +703,7 @@ RULE = ("Structured, built from the branch conditions of the code. encode/decode
         "for n <= 131, else those within 3 of the round bit, of the 31/63-bit window n-31/n-63, of encode's sticky boundary, of every word "
         "boundary 64k, and 0..2); for rationals also remainder-only sticky (odd denominators). Rationals: quotients with p-1..p+3 bits x the cut patterns x denominators {1, "
         "small odd, 2^k, 2^64±1, 10^25, random} at exponents in the normal range, the subnormal band, below it and at the overflow edge; "
-        "to_float over bases {2,3,10,16} x 6 modes x precisions with tie/near-tie tails. Floats of any base: binary significands of 1..200 bits "
+        "to_float over bases {2,3,10,16} x 6 modes x precisions with tie/near-tie tails. Floats of any base: every exponent boundary of into_fNN_internal and of encode's regimes (±2) x significands of p-1..p+3 bits (all ones, 10..01, ties after the first rounding); binary significands of 1..200 bits "
         "at every regime, decimals d·10^e with |e| <= 400 (1..40 digits), the to_int family with exact halves/near halves. All call forms "
         "(owned/ref, RBig/Relaxed, FBig/Repr) are evaluated and must agree. Non-trivial := some operand is neither 0 nor ±1; distinct := distinct (op,args).")
 EXPLANATION = ("Centre: a machine-checked proof that f32/f64::encode of the current tree equals the IEEE-754 round-to-nearest-even specification "
